@@ -5,10 +5,10 @@ package main
 
 import (
 	"context"
-	"net"
-	"runtime"
 	"encoding/json"
 	"fmt"
+	"net"
+	"runtime"
 	"strings"
 	"sync"
 	"time"
@@ -18,7 +18,6 @@ import (
 	"github.com/ovh/kmip-go/payloads"
 
 	"verifharness/internal/clisim"
-	"verifharness/internal/h"
 )
 
 // ---- scenario language (mirrored by ConnClient.v: [scenario], [sstep]) ----
@@ -53,13 +52,13 @@ type ccStep struct {
 }
 
 type ccReq struct {
-	W  int `json:"w,omitempty"`  // clisim.WriteAct
-	WK int `json:"wk,omitempty"` // kind
-	SN int `json:"sn,omitempty"`
-	R  int `json:"r,omitempty"` // clisim.ReplyAct
-	RK int `json:"rk,omitempty"`
-	PN int `json:"pn,omitempty"`
-	Ch int `json:"ch,omitempty"`
+	W  int  `json:"w,omitempty"`  // clisim.WriteAct
+	WK int  `json:"wk,omitempty"` // kind
+	SN int  `json:"sn,omitempty"`
+	R  int  `json:"r,omitempty"` // clisim.ReplyAct
+	RK int  `json:"rk,omitempty"`
+	PN int  `json:"pn,omitempty"`
+	Ch int  `json:"ch,omitempty"`
 	J  bool `json:"j,omitempty"`
 }
 
@@ -114,15 +113,15 @@ const (
 var ccResNames = []string{"ok", "err", "wrong", "panic", "hang"}
 
 type ccCallObs struct {
-	Res   int    `json:"res"`
-	Got   string `json:"got,omitempty"`   // identifier received (wrong) / panic text
-	Ntx   int    `json:"ntx"`             // times the scripted server received this call's request
-	Dials int    `json:"dials"`           // dial attempts so far (including the first)
-	IsClose bool `json:"is_close,omitempty"`
-	IsNeg   bool `json:"is_negotiation,omitempty"`
-	ExpectOK bool `json:"expect_ok,omitempty"` // plain call, client open, nothing scripted can fail any more
-	Millis  int64 `json:"ms,omitempty"`
-	Acted   bool  `json:"acted,omitempty"` // the trigger point was reached and the action performed
+	Res      int    `json:"res"`
+	Got      string `json:"got,omitempty"` // identifier received (wrong) / panic text
+	Ntx      int    `json:"ntx"`           // times the scripted server received this call's request
+	Dials    int    `json:"dials"`         // dial attempts so far (including the first)
+	IsClose  bool   `json:"is_close,omitempty"`
+	IsNeg    bool   `json:"is_negotiation,omitempty"`
+	ExpectOK bool   `json:"expect_ok,omitempty"` // plain call, client open, nothing scripted can fail any more
+	Millis   int64  `json:"ms,omitempty"`
+	Acted    bool   `json:"acted,omitempty"` // the trigger point was reached and the action performed
 }
 
 type ccObs struct {
@@ -446,5 +445,3 @@ func ccDescribe(sc ccScenario) string {
 	}
 	return strings.TrimSpace(sb.String())
 }
-
-var _ = h.Z
